@@ -28,8 +28,28 @@ CLAIMS = {
          "capacities 0..3 and built-in; successful parses only, as the property states"),
  "C16": ("§6 C16", "TLC enumerates every letter-case variant of every table name, every byte string of length 0..3 over a 40 byte alphabet and every one-edit neighbour of every table name, checks hash-lookup = table-membership on the model and prints what the documented table says; every name is classified by the real functions and compared.",
          "exhaustive over the stated name sets (>= 96k names); longer random names only through the header-block generator"),
+ "C05": ("§6 C05", "the C05 predicate FieldsNested (spec/Props.tla) is an invariant of the transcribed message parser over every generated message (with AutoEqDecl: the transcription reads each message as the generator intends), and TLC itself judges the REAL observations: every generated message is executed on the real parser (one-shot and with cuts), the observation is written out and evaluated by TLC with the same predicate (Judge_Msg.tla).",
+         "bounded generator (K<=2/3 pool headers incl. repeated Contact / PAI / From and multi-value headers); chunk schedules beyond the three replayed ones are covered through C01 (resumed = one-shot)"),
+ "C08": ("§6 C08", "GenFLine.tla builds request and status lines from parts with the intended decomposition (all method names and case variants, arbitrary tokens, version in 4 letter-case patterns, codes incl. 000 (thorough: all 1000), empty / one-token / multi-token reasons, three terminators, near-misses with 'rejected or more'); TLC checks FLineDecl on the transcription (FLine.tla) and, as a Stream instance, resumption/stability over steered atom strings; every record is executed on the real ParseFLine (decl mismatch = violation, drift reported).",
+         "bounded token sets; near-miss list is fixed (double SP, HT, missing token, leading SP, <14 bytes, non-digit/2-/4-digit status)"),
+ "C09": ("§6 C09", "GenNameAddr.tla builds name-addr values and comma lists from parts (display forms, <uri>/bare uri, 0..3 parameters in any order/case with missing/empty/token/number/quoted values, LWS around ';' '=' ',') with the intended fields; TLC enumerates five slices (>= 200k values/lists) and each is executed through ParseNameAddrPVal (From/To/Contact/PAI), the Contact/PAI list parsers (capacities 0 1 2 4), ParseHeaders and ParseSIPMsg and compared on the determined keys; the parsers are also transcribed (NameAddr.tla, ValLists.tla) and model-checked as Stream instances.",
+         "keys the statement leaves open (Name with LWS before '<', duplicate parameter names, Min/MaxExpires with absent expires) are not compared"),
+ "C14": ("§6 C14", "ParseURI is transcribed (SipURI.tla, 18 states); the Decl predicate Lossless (URIProps.tla) is a TLC invariant over every byte string up to 5-6 atoms of the delimiter alphabet after each scheme spelling; every explored input is executed on the real ParseURI (drift 0); real results that differ from the model, and a sample of all real results, are judged by TLC with the same predicate (Judge_URI.tla).",
+         "bounded alphabet ': @ ; ? & = [ ] . a 1' and length; random longer inputs not included; byte 0x1a accepted as scheme colon is outside the quantifier (not a scheme prefix) and documented"),
+ "C17": ("§6 C17", "GenParams.tla builds parameter lists of 0..3 items with all value kinds, LWS placements, both separators and the five endings together with intended spans, counts, type flags, verdict and offset, plus a 256-byte sweep at 9 positions in 3 modes for the character set; every list is executed through ParseTokenParam (9 flag sets), ParseAllURIParams / ParseAllURIHdrs (capacities 0 1 2 8) and URIParamResolve; TokParam.tla transcribes the parsers (46 model-checked configurations, drift 0).",
+         "known finding: a list with nothing in it is counted as one parameter (codified by a repository test); 'All' of an empty value is not compared (not determined by the statement)"),
+ "C18": ("§6 C18", "AdjustOffs and the views are transcribed (SipURI.tla); RelocateOk / ViewsOk (URIProps.tla) are TLC invariants over every accepted URI x target offsets {0,1,300,65535-len} x spans 0..len+2, and over every offset up to the wrap boundary in a scaled model (OffsMod = 32); every case is executed on the real code (drift 0) and drifted / sampled real results are judged by TLC (RelocateReal, ViewsReal).",
+         "known finding: views of a tel: URI with a password; spans that are not spans of any buffer (offs+len > 65535) are outside the quantifier"),
+ "C19": ("§6 C19", "MsgSig.tla states the demanded header part of the signature (SigHdrModel) and transcribes GetMsgSig; TLC checks AutoSatisfiesDecl / DeclMeta / StringOK and enumerates requests (method x permutations/subsets of the fingerprinted headers, long/compact, fillers, value changes, later repeats, capacities, replies, cut positions); each is executed on the real parser + GetMsgSig: demanded keys, metamorphic groups (same fingerprinted content => identical full signature), explicit-truncated-or-equal-to-ample, well-formed rendering.",
+         "the character-class functions (getStrCharsSig) are uninterpreted in the model; their determinism on equal strings is checked through the metamorphic groups"),
+ "C20": ("§6 C20", "IP4Prefix / ContainsIP4 are transcribed (IPAddr.tla); ContainsDecl / PrefixDecl (a dotted quad defined directly) are TLC invariants over every string over {1,2,5,6,.,x} (<=7/8), {2,.,x} (<=10/11), {2,5,6,.} (<=9), {0,2,.} (<=10); every string is executed on the real functions (drift 0); drifted / sampled real results are judged by TLC (Judge_IP4.tla).",
+         "bounded alphabets and lengths; random long strings with embedded addresses not included"),
 }
-TECHS = {"C06": GEN, "C07": GEN, "C10": GEN, "C16": GEN}
+TECHS = {"C06": GEN, "C07": GEN, "C10": GEN, "C16": GEN, "C08": GEN, "C09": GEN, "C17": GEN, "C19": GEN,
+         "C05": "TLA+ predicate checked on the transcription by TLC and evaluated by TLC on recorded real observations (judge)",
+         "C14": "TLA+ transcription + Decl predicate model-checked with TLC; every explored input replayed on the Go code; TLC judges real results",
+         "C18": "TLA+ transcription + Decl predicate model-checked with TLC (incl. scaled wrap model); replay on the Go code; TLC judges real results",
+         "C20": "TLA+ transcription + Decl predicate model-checked with TLC; every explored input replayed on the Go code; TLC judges real results"}
 props = [json.loads(l) for l in open(os.path.join(V, "properties.jsonl"))]
 commits = subprocess.run(["git", "-C", "/repo", "log", "--format=%h %s"], stdout=subprocess.PIPE, text=True).stdout.splitlines()
 hooks = [c.split()[0] for c in commits if " hook:" in c or c.split(" ", 1)[1].startswith("verif:")]
